@@ -235,6 +235,7 @@ FullSync<'a, ItemType, BUFFER_SIZE, MAX_STREAMS> {
 
     #[inline(always)]
     fn drop_resources(&self, stream_id: u32) {
+        vp!("mc.drop.drain", stream_id);
         // events this listener left unconsumed must not be inherited by the next `Stream` to be given the same `stream_id`
         let channel = unsafe { self.channels.get_unchecked(stream_id as usize) };
         while channel.consume_movable().is_some() {}
